@@ -905,7 +905,7 @@ var scenarios = []scenario{
 	{Name: "wt flip mem: writer+reader+ttl", C: "ab", Mem: 4, Writers: []wspec{{"wt-direct", "bb", 2}}, TTL: true, coarse: plan{1, 2}, fine: plan{0, 1}},
 	{Name: "wt flip mem: writer+reader+drain+ttl", C: "ab", Mem: 4, Writers: []wspec{{"wt-direct", "bb", 2}}, Drains: 2, TTL: true, coarse: plan{0, 1}, fine: plan{0, 1}},
 	// truncated / extended stream, declared size = delivered length
-	{Name: "wt prefix size=|stream| mem: writer+reader+drain", C: "ab", Mem: 4, Writers: []wspec{{"wt-direct", "a", 1}}, Drains: 2, coarse: plan{1, 2}, fine: plan{0, 1}},
+	{Name: "wt prefix size=|stream| mem: writer+reader+drain", C: "ab", Mem: 4, Writers: []wspec{{"wt-direct", "a", 1}}, Drains: 2, coarse: plan{0, 2}, fine: plan{0, 1}},
 	{Name: "wt suffix size=|stream| mem: writer+reader+drain", C: "ab", Mem: 4, Writers: []wspec{{"wt-direct", "aba", 3}}, Drains: 2, coarse: plan{0, 2}, fine: plan{0, 1}},
 	// truncated stream, declared size |c|: the memory path rejects, the disk fallback must reject too
 	{Name: "wt prefix size=|c| mem: writer+reader+drain", C: "ab", Mem: 4, Writers: []wspec{{"wt-direct", "a", 2}}, Drains: 1, coarse: plan{1, 3}, fine: plan{1, 1}},
@@ -1078,6 +1078,9 @@ func fingerprint(v vrt.Violation) string {
 
 func allHarnesses() []*vrt.Harness {
 	var hs []*vrt.Harness
+	for _, sc := range holdScenarios {
+		hs = append(hs, holdHarness(sc, false), holdHarness(sc, true))
+	}
 	for _, sc := range scenarios {
 		hs = append(hs, e1Harness(sc, false), e1Harness(sc, true))
 	}
@@ -1101,6 +1104,22 @@ func replay(run *evid.Run, path string) {
 	}
 	if json.Unmarshal(f.Case, &e4) == nil && e4.E4 != nil {
 		res, herr := runE4(*e4.E4)
+		if herr != nil {
+			run.Fatal(herr)
+		}
+		run.Eval(1)
+		run.Distinct(res.class)
+		run.Distinct("replay")
+		for _, v := range res.vios {
+			run.Violation(v.fp, v.detail)
+		}
+		run.Finish()
+	}
+	var e4h struct {
+		E4H *e4hCase `json:"e4h"`
+	}
+	if json.Unmarshal(f.Case, &e4h) == nil && e4h.E4H != nil {
+		res, herr := runE4H(*e4h.E4H)
 		if herr != nil {
 			run.Fatal(herr)
 		}
@@ -1142,6 +1161,8 @@ func main() {
 		"Stat size in {|c|,|stream|,|c|+1,|c|-1}, memory cache in {off, MaxSize 0,|c|-1,|c|,|c|+1,2|c|}) is executed on a fresh real CAStore + origin server; " +
 		"after the write, after every drain step and after the TTL sweep all 8 observation kinds under d are compared with c. " +
 		"E1: every interleaving (preemption-bounded DFS at lock operations) of writer thread(s), a reader thread doing the 8 observations, a drain thread and a TTL thread. " +
+		"E4-H: every order of {open a reader on A, read half, finish reading, drain step, drain step, TTL sweep, write-through of another blob B with |A|/2<=|B|<=|A|} (open<half<finish) x (A,B) pairs x {CAStore reader, origin GET body consumed in two parts} after A went through the memory path; the held reader must return exactly A or an error. " +
+		"E1-H: holder thread (open, scheduling point, read half, scheduling point, read rest) + writer of B + drain and/or TTL thread. " +
 		"distinct = outcome classes (path, stream kind, Stat relation, memory on/off, memory entry created, error, visibility) of E4 + distinct E1 observations."
 	run.Assume("small-scope: contents over a 2-symbol alphabet up to length 3 (quick) / 6 (thorough); one digest per store; piece lengths 1 (size<3) and 2")
 	run.Assume("SkipHashVerification=false only (the flag is an explicit opt-out of the property)")
@@ -1149,6 +1170,7 @@ func main() {
 	run.Assume("Unlock operations are not preemption points (Lock/RLock operations are)")
 	run.Assume("instrumentation by go build -overlay (sync -> vsync/vsyncq, go statement of dedup.RequestCache.Start -> vrt.Go, added read-only export files) preserves semantics")
 	run.Assume("CAStore drain / TTL workers are replaced by explicit calls of their step functions (drainNext, cleanupMemoryCacheExpiredEntries); DrainMaxRetries=1")
+	run.Assume("held readers: one reader per history, opened on the blob that went through the memory path; a ResponseWriter may consume the slice passed to Write over time (slow socket) but never after Write returned")
 	run.Assume("each writer is one sequential client (start, patch..., commit of one upload are not concurrent with each other)")
 	run.Assume("the fake backend delivers the same stream on every Download of a refresh (memory attempt and disk fallback)")
 
@@ -1248,6 +1270,86 @@ func main() {
 	fmt.Printf("E4: %d cases (|c|<=%d), %d outcome classes, %d with a memory entry, %d with a mismatching stream, %d violating fingerprints, %.1fs\n",
 		len(cases), maxLen, len(classes), memHits, mismatching, len(vioCount), time.Since(st).Seconds())
 
+	// ---- E4-H: held readers
+	{
+		hcases := e4hCases(th)
+		if os.Getenv("C01_SKIP_E4") != "" {
+			hcases = hcases[:0]
+		}
+		st := time.Now()
+		hclasses := map[string]int{}
+		hvio := map[string]int{}
+		hfirst := map[string]interface{}{}
+		hidx := map[string]int{}
+		reuse := 0
+		var herr error
+		type hjob struct {
+			idx int
+			cs  e4hCase
+		}
+		hjobs := make(chan hjob, 256)
+		var wg sync.WaitGroup
+		for w := 0; w < evid.Workers(); w++ {
+			wg.Add(1)
+			go func() {
+				defer wg.Done()
+				for jb := range hjobs {
+					res, err := runE4H(jb.cs)
+					mu.Lock()
+					if err != nil {
+						if herr == nil {
+							j, _ := json.Marshal(jb.cs)
+							herr = fmt.Errorf("E4-H case %s: %v", j, err)
+						}
+						mu.Unlock()
+						continue
+					}
+					hclasses[res.class]++
+					if res.reuse {
+						reuse++
+					}
+					for _, v := range res.vios {
+						hvio[v.fp]++
+						if i, ok := hidx[v.fp]; !ok || jb.idx < i {
+							hidx[v.fp] = jb.idx
+							hfirst[v.fp] = v.detail
+						}
+					}
+					mu.Unlock()
+				}
+			}()
+		}
+		for i, cs := range hcases {
+			hjobs <- hjob{i, cs}
+		}
+		close(hjobs)
+		wg.Wait()
+		if herr != nil {
+			run.Fatal(herr)
+		}
+		run.Eval(len(hcases))
+		for c := range hclasses {
+			run.Distinct("e4h|" + c)
+		}
+		var hf []string
+		for fp := range hvio {
+			hf = append(hf, fp)
+		}
+		sort.Strings(hf)
+		for _, fp := range hf {
+			run.Violation(fp, hfirst[fp])
+		}
+		run.Set("e4h_cases", len(hcases))
+		run.Set("e4h_outcome_classes", len(hclasses))
+		run.Set("e4h_cases_B_written_while_reader_held_after_A_left_memory", reuse)
+		run.Set("e4h_violating_cases_by_fingerprint", hvio)
+		if len(hcases) > 0 {
+			run.Sample(hcases[len(hcases)/2])
+		}
+		fmt.Printf("E4-H: %d held-reader histories (%d orders x %d (A,B) pairs x 2 reader kinds), %d outcome classes, %d with B written while the reader was held after A left memory, %d violating fingerprints, %.1fs\n",
+			len(hcases), len(heldOrders()), len(heldPairs(th)), len(hclasses), reuse, len(hvio), time.Since(st).Seconds())
+	}
+
 	// ---- E1
 	type job struct {
 		h     *vrt.Harness
@@ -1255,6 +1357,14 @@ func main() {
 		small bool
 	}
 	var js []job
+	for _, sc := range holdScenarios {
+		if b := sc.coarse.bound(th); b > 0 {
+			js = append(js, job{holdHarness(sc, false), b, false})
+		}
+		if b := sc.fine.bound(th); b > 0 {
+			js = append(js, job{holdHarness(sc, true), b, false})
+		}
+	}
 	for _, sc := range scenarios {
 		if b := sc.coarse.bound(th); b > 0 {
 			js = append(js, job{e1Harness(sc, false), b, sc.small && b <= 2})
